@@ -191,6 +191,16 @@ namespace adept {
 				  ADEPT_EXCEPTION_LOCATION);
 	}
       }
+      // As in resize(), if any of the dimensions is zero (e.g. an
+      // empty range in any position, not just the first) then the
+      // array has no elements and all dimensions are zero, so that
+      // empty() is true and no loop over its elements is entered
+      for (int i = 0; i < Rank; ++i) {
+	if (dimensions_[i] == 0) {
+	  dimensions_.set_all(0);
+	  break;
+	}
+      }
       if (storage_) {
 	storage_->add_link(); 
 	internal::GradientIndex<IsActive>::set(data_, storage_);
@@ -213,6 +223,12 @@ namespace adept {
 	if (dimensions_[i] < 0) {
 	  throw invalid_dimension("Negative array dimension requested"
 				  ADEPT_EXCEPTION_LOCATION);
+	}
+      }
+      for (int i = 0; i < Rank; ++i) {
+	if (dimensions_[i] == 0) {
+	  dimensions_.set_all(0);
+	  break;
 	}
       }
     }
